@@ -219,6 +219,10 @@ class KeyCache(t.Generic[P, T]):
             self.cache[key] = result
             return result
 
+        if self.maxsize == 0:
+            # no caching at all (there is no oldest link to reuse)
+            return self.inner_f(*args, **kwargs)
+
         key = self.key_f(*args, **kwargs)
         with self._lock:
             link = self.cache.get(key, None)
